@@ -30,7 +30,9 @@ Inductive case :=
                                                             (* conn.uri(), then _parseURI of that text *)
 | KSqlite (nt unm : bool) (filename : uv) (o : otext) (p : option oparse) (opened : option otext)
                                                             (* conn.uri(), _parseURI, connectionForURI(uri).filename *)
-| KOpen (nt unm : bool) (uri : str) (opened : otext).      (* connectionForURI(uri).filename *)
+| KOpen (nt unm : bool) (uri : str) (opened : otext)
+| KSeq (steps : list (str * otext)).                        (* connectionForURI(uri).filename, call after call,
+                                                               one process, opener cache empty at the start *)      (* connectionForURI(uri).filename *)
 
 Definition uexn_eqb (a b : uexn) : bool :=
   match a, b with
@@ -76,6 +78,13 @@ Definition after_text {A} (o : otext) (x : option A) (k : str -> A -> bool) : bo
   | _, _ => false
   end.
 
+Fixpoint seq_agrees (ms : list (ures str)) (os : list otext) : bool :=
+  match ms, os with
+  | [], [] => true
+  | m :: ms', o :: os' => text_agrees m o && seq_agrees ms' os'
+  | _, _ => false
+  end.
+
 Definition agree (c : case) : bool :=
   match c with
   | KQuote safe s o =>
@@ -95,4 +104,7 @@ Definition agree (c : case) : bool :=
       && after_text o p (fun t op => Bool.eqb (is_unm (parse_uri nt t)) unm && parse_agrees (parse_uri nt t) op)
       && after_text o opened (fun t oo => Bool.eqb (is_unm (open_uri nt t)) unm && text_agrees (open_uri nt t) oo)
   | KOpen nt unm uri opened => Bool.eqb (is_unm (open_uri nt uri)) unm && text_agrees (open_uri nt uri) opened
+  | KSeq steps =>
+      let ms := open_seq false [] (map fst steps) in
+      forallb (fun m => negb (is_unm m)) ms && seq_agrees ms (map snd steps)
   end.
